@@ -384,7 +384,9 @@ def run_fill(model, sc: Scenario, ctx=None):
                 # values are exact in the model; a cast to a type taken from the supplied columns is judged by R09.5b
                 return BoundLib("identity_method", self)
             if name == "T":
-                raise ev.err(f"solution matrix attribute {name}", node, mod)
+                return SolMatT(self.rows)
+            if name == "transpose":
+                return BoundLib("solmat.transpose", self)
             raise ev.err(f"solution matrix attribute {name}", node, mod)
 
         def sym_compare(self, ev, op, other, reflected, n, mod):
@@ -393,6 +395,68 @@ def run_fill(model, sc: Scenario, ctx=None):
             if opn is None or reflected:
                 raise ev.err("comparison of the solution matrix", n, mod)
             return PredList([(r, opn, other) for r in self.rows], per_volume=any(not _reduced(r) for r in self.rows))
+
+    class SolMatT:
+        """the transposed solution: one row per volume, one column per component"""
+
+        def __init__(self, rows):
+            self.rows = list(rows)
+
+        def sym_getattr(self, ev, name, node, mod):
+            if name == "T":
+                return SolMat(self.rows)
+            if name == "shape":
+                return Tup([sp.Symbol("NVOL", positive=True, integer=True), sp.Integer(len(self.rows))])
+            raise ev.err(f"transposed solution matrix attribute {name}", node, mod)
+
+    class LabelledCol:
+        """a column of a frame: values plus the row labels they are aligned on when stored into another frame.
+        index: 'fresh' = 0..n-1 made up by the constructor, 'table' = the row labels of the caller's table"""
+
+        def __init__(self, value, index):
+            self.value, self.index_kind = value, index
+
+        def sym_getattr(self, ev, name, node, mod):
+            if name in ("values", "array"):
+                return self.value              # the bare values: stored by position
+            if name in ("to_numpy", "to_list", "tolist"):
+                return BoundLib("labelledcol.bare", self)
+            if name in ("copy", "astype"):
+                return BoundLib("identity_method", self)
+            raise ev.err(f"attribute {name} of a column of the solution frame", node, mod)
+
+    class SolFrame:
+        """pandas.DataFrame built from the (transposed) solution"""
+
+        def __init__(self, cols, index):
+            self.cols, self.index_kind = cols, index
+
+        def sym_subscript(self, ev, idx, n, mod):
+            key = str(idx) if is_sym(idx) and idx.is_Symbol else idx
+            if isinstance(key, str) and key in self.cols:
+                return LabelledCol(self.cols[key], self.index_kind)
+            raise RaisedV("KeyError", f"{mod.rel}:{getattr(n, 'lineno', 0)}" if mod else "")
+
+        def sym_getattr(self, ev, name, node, mod):
+            if name == "columns":
+                return Tup(list(self.cols), "list")
+            raise ev.err(f"attribute {name} of the solution frame", node, mod)
+
+    class TableIndex:
+        """the row labels of the caller's table (whatever they are)"""
+
+    def dataframe(ev, a, k):
+        data = a[0] if a else k.get("data")
+        cols = k.get("columns", a[2] if len(a) > 2 else None)
+        index = k.get("index", a[1] if len(a) > 1 else None)
+        if not isinstance(data, SolMatT) or cols is None:
+            raise AnalysisError("pandas.DataFrame built from something other than the transposed solution with column names")
+        names = [str(c) for c in ev.iterate(cols)]
+        if len(names) != len(data.rows):
+            raise RaisedV("ValueError")
+        if index is not None and not isinstance(index, TableIndex):
+            raise AnalysisError("pandas.DataFrame of the solution with an index that is not the table's")
+        return SolFrame(dict(zip(names, data.rows)), "table" if index is not None else "fresh")
 
     def _reduced(e):
         """the expression has been reduced over the volume axis"""
@@ -611,12 +675,15 @@ def run_fill(model, sc: Scenario, ctx=None):
         "numpy.concatenate": concatenate, "numpy.vstack": concatenate, "numpy.row_stack": concatenate, "numpy.repeat": repeat, "numpy.tile": tile, "sympy.matrix2numpy": matrix2numpy,
         "numpy.linalg.lstsq": lstsq, "numpy.allclose": allclose,
         "numpy.isclose": isclose, "boolmat.any": boolred("any"), "boolmat.all": boolred("all"),
+        "pandas.DataFrame": dataframe, "labelledcol.bare": lambda ev, a, k: (k.all(), a[0].value)[1],
+        "solmat.transpose": lambda ev, a, k: SolMatT(a[0].rows),
         "DataFrame.items": df_items, "DataFrame.drop": df_drop, "identity": lambda ev, a, k: a[0],
         "identity_method": lambda ev, a, k: (k.all(), a[0])[1], "ndarray.astype": astype,
         "collections.OrderedDict": lambda ev, a, k: __import__("cijsa.sym", fromlist=["lib_dict"]).lib_dict(ev, a, k, None, None),
     }
     ev = Ev(model, {}, intr, ctx=ctx)
     ev_ref = {}
+    table.index_value = TableIndex()
     DFV.sym_subscript_multi = lambda self, names: ColsMat(list(names), [self.cols[n_] for n_ in names])
     f = model.func(FILL)
     mod = model.mods["cij.util.fill"]
